@@ -48,15 +48,14 @@ EPS = 2.220446049250313e-16
 NOISE_REL = 1e-10     # a step norm <= NOISE_REL * |A| is rounding noise (a breakdown in exact arithmetic)
 
 # Clauses of modelled defects are taken from /verif/known_findings.json (`common.known_clauses`); nothing is provisional.
-# Recorded for C15: noClip, stopExact, breakdownNotMasked (floating point only), krylov-complex-operand-real-operator.
+# Recorded for C15: noClip, stopExact, breakdownNotMasked (floating point only).
 # Former defect (a) (`noPaddingEigs`) is repaired in /repo (commit 0459ce4) and `Arnoldi.trimPaddingInEigs = true` mirrors it;
-# the clause name is still produced by the oracle so that a regression shows up as a VIOLATION.
+# the clause name is still produced by the oracle so that a regression shows up as a VIOLATION (it is not a recorded clause).
+# The former mixed-dtype defect (buffers in the operator's dtype dropped the imaginary part of a complex start vector) is repaired
+# in /repo (commit a98c0be): stream D (real operator, complex operand) goes through the NORMAL three-way comparison, no excuse path.
 PROVISIONAL_KNOWN = set()
-MIXED = "krylov-complex-operand-real-operator"
 
 WHAT = {
-    MIXED: "init_arnoldi allocates the Q/H buffers with dtype=A.dtype: a complex start vector on a real operator silently loses its "
-           "imaginary part (Q[:,0] = Re(v/|v|), not a unit vector), everything downstream is computed from the truncated vector",
     "noPaddingEigs": "arnoldi_eigs hands the square part of the whole zero-padded buffer (max_iters columns) to eig: "
                      "max_iters - steps spurious zero eigenvalues whenever fewer than max_iters steps ran (max_iters > n, or breakdown)",
     "noClip": "new_vec /= clip(norm, tol/2) is an absolute floor while the stopping test is relative (norm > tol*H[1,0]): a step "
@@ -705,15 +704,6 @@ class Engine:
                 self.dist.setdefault("arnoldiEigs_model_runs", {}).setdefault(key, 0)
                 self.dist["arnoldiEigs_model_runs"][key] += 1
         fails = spec_check(case, real)
-        if case.get("mixed") and (mism or fails) and "Q" in real:
-            # real operator, complex operand: the Lean model has one scalar type (it computes in the promoted dtype, as the
-            # property demands); the defect mechanism — buffers allocated in A.dtype — is confirmed directly on the real output
-            V = fromjson(case["V"], True)
-            trunc = (not np.iscomplexobj(real["Q"])) and np.abs(V.imag).max() > 0 and all(
-                np.allclose(real["Q"][c][:, 0], (V[c] / np.linalg.norm(V[c])).real, atol=1e-12) for c in range(V.shape[0]))
-            if trunc:
-                mism = []
-                fails = [(f[0], MIXED, f[2]) for f in fails] or [("first-column", MIXED, "Q is real although the start vector is complex")]
         if mism:
             self.dist["outcomes"]["real!=model"] += 1
             hard = self.unexcused(fails)
@@ -889,7 +879,8 @@ def run(ctx):
         "theorems are about exact real/complex arithmetic; rounding (loss of orthogonality, noise after a breakdown) is outside the model",
         "tol > 0 and non-zero start vectors (tol = 0 with an exact breakdown, or a zero start vector, give NaN in the real code: 0/0)",
         "the Householder variant (use_householder=True) is outside the model",
-        "mixed dtypes (real operator, complex start vector) are outside the Lean model (one scalar type): the truncation mechanism is "
-        "confirmed on the real output by the harness (clause %s)" % MIXED])
+        "mixed dtypes (stream D: real operator, complex start vector): the Lean model has one scalar type, so the model is run on the operator "
+        "cast to the promoted (complex) dtype while the real code gets the real operator; the results go through the normal comparison "
+        "(the former truncation defect is repaired in /repo, commit a98c0be; there is no excuse path)"])
     print(json.dumps({"outcomes": cov["outcomes"], "distinct_nontrivial": cov["distinct_nontrivial"], "clauses": cov["distributions"]["clauses"],
                       "gate": (gate or {}).get("obligations"), "wall_s": round(ctx.wall(), 1)}))
